@@ -39,6 +39,7 @@ type Violation struct {
 	Observed string          `json:"observed"`
 	Allowed  string          `json:"allowed"`
 	Crash    bool            `json:"crash,omitempty"` // the process died
+	Sound    bool            `json:"sound_detector,omitempty"`
 }
 
 // Space is one enumerated space of a check.
@@ -222,6 +223,17 @@ func (w *W) Violate(sig, human, observed, allowed string) {
 		return
 	}
 	w.viol = append(w.viol, Violation{Property: w.c.Check.ID, Sig: sig, Space: w.space, Case: cs, Human: human, Observed: observed, Allowed: allowed})
+}
+
+// ViolateSound records a violation witnessed by a sound detector whose reports
+// are not reproducible at will (the race detector): it is believed as is and
+// not gated on five identical replays.
+func (w *W) ViolateSound(sig, human, observed, allowed string) {
+	n := len(w.viol)
+	w.Violate(sig, human, observed, allowed)
+	if len(w.viol) > n {
+		w.viol[len(w.viol)-1].Sound = true
+	}
 }
 
 // SetCase sets a non-index case descriptor for the next Violate calls.
